@@ -61,8 +61,11 @@ def fallback_script(rng):
 
 
 def gen_fn(rng):
-    if rng.random() < 0.1:
+    r0 = rng.random()
+    if r0 < 0.1:
         return fallback_script(rng)
+    if r0 < 0.2:
+        return gen.mux_failover(rng)
     ns = rng.choice([1, 2, 2, 3, 4])
     comps = []
     for s in range(ns):
